@@ -39,9 +39,11 @@ KsQuickConfigs ==
   {[fam |-> "pair",   alpha |-> {"a", "t"}, rlo |-> 4, rn |-> 4, nr |-> 2, qlo |-> 4, qn |-> 4,
     kmo |-> {<<2, -1>>, <<2, 2>>, <<3, -1>>}],
    [fam |-> "triple", alpha |-> {"a", "t"}, rlo |-> 3, rn |-> 3, nr |-> 3, qlo |-> 3, qn |-> 3,
-    kmo |-> {<<2, -1>>, <<2, 2>>}],
+    kmo |-> {<<2, 2>>}],
    [fam |-> "iupac",  alpha |-> {"a", "c", "n"}, rlo |-> 3, rn |-> 3, nr |-> 1, qlo |-> 3, qn |-> 3,
-    kmo |-> {<<2, -1>>, <<2, 0>>, <<2, 1>>}]}
+    kmo |-> {<<2, -1>>, <<2, 0>>, <<2, 1>>}],
+   [fam |-> "nest",   alpha |-> {"a", "t"}, rlo |-> 6, rn |-> 6, nr |-> 1, qlo |-> 4, qn |-> 4,
+    kmo |-> {<<2, -1>>}]}
 KsThoroughConfigs ==
   {[fam |-> "pair",   alpha |-> {"a", "t"}, rlo |-> 4, rn |-> 4, nr |-> 2, qlo |-> 3, qn |-> 5,
     kmo |-> {<<2, -1>>, <<2, 1>>, <<2, 2>>, <<2, 3>>, <<3, -1>>, <<3, 2>>}],
@@ -52,7 +54,9 @@ KsThoroughConfigs ==
    [fam |-> "iupac",  alpha |-> {"a", "c", "n"}, rlo |-> 3, rn |-> 4, nr |-> 1, qlo |-> 3, qn |-> 4,
     kmo |-> {<<2, -1>>, <<2, 0>>, <<2, 1>>, <<3, -1>>}],
    [fam |-> "acgt",   alpha |-> {"a", "c", "g", "t"}, rlo |-> 3, rn |-> 4, nr |-> 1, qlo |-> 3, qn |-> 3,
-    kmo |-> {<<2, -1>>, <<2, 2>>, <<3, -1>>}]}
+    kmo |-> {<<2, -1>>, <<2, 2>>, <<3, -1>>}],
+   [fam |-> "nest",   alpha |-> {"a", "t"}, rlo |-> 6, rn |-> 7, nr |-> 1, qlo |-> 4, qn |-> 5,
+    kmo |-> {<<2, -1>>, <<3, -1>>}]}
 
 KsWords(S, lo, n) == UNION {[1..m -> S] : m \in lo..n}
 KsTuples(S, n) == UNION {[1..m -> S] : m \in 1..n}
@@ -143,9 +147,13 @@ SwitchesOffIsSpec ==
 ExactLaws ==
   done => \A i \in 1..NR :
             LET e == KsExact(q, refs[i])  f == KsExact(refs[i], q)
-            IN /\ e.where = f.where /\ e.len = f.len /\ e.rev = f.rev
-               /\ (refs[i] = q /\ KmerRevCompSeq(q) # q) => e = [where |-> "end", rev |-> 0, len |-> Len(q)]
-               /\ (refs[i] = KmerRevCompSeq(q) /\ refs[i] # q) => e = [where |-> "end", rev |-> 1, len |-> Len(q)]
+            IN /\ e = f
+               /\ (refs[i] = q /\ KmerRevCompSeq(q) # q) => e = [where |-> "end", rev |-> 0, len |-> Len(q), pos |-> 1]
+               /\ (refs[i] = KmerRevCompSeq(q) /\ refs[i] # q) => e = [where |-> "end", rev |-> 1, len |-> Len(q), pos |-> 1]
+               (* the placement vote: an exact END overlap gets the full score at its own shift, an INTERNAL one does not *)
+               /\ (e.len >= 4 /\ e.where # "none") =>
+                     LET b == IF e.rev = 1 THEN KmerRevCompSeq(refs[i]) ELSE refs[i]
+                     IN KsPerfectAt(q, b, KsExactShift(q, refs[i], e)) <=> (e.where = "end")
                /\ (e.where # "none" /\ Len(q) = Len(refs[i]) /\ PlainSeq(q) /\ PlainSeq(refs[i]) /\ Len(q) >= k)
                      => KsCount(res.qk, res.rbags, i, -1) >= Len(res.qk)
 
